@@ -1,14 +1,16 @@
 /-
   C03 — level-triggered convergence across changes, restarts, kills and downtime. Property theorems only.
 
-  The state of `Kopf.C03.loopStep` is what one object carries (`P` progress records, `base` last-handled
-  essence), its current essence `ess`, the operator's two memory flags, the clock and whether a watch
-  event is pending. "Once changes stop" = `ess` is constant and nobody but the framework writes;
-  "handlers stop failing" = `AllFinal` (every invocation from now on yields a final outcome).
-  Every theorem quantifies over ALL such states — any history (any records, any last-handled state,
-  any flags, any clock) leads to one of them — and over all handler sets, lifecycles, limits and delays.
-  `UniformOn` (all stored records carry one purpose) is an invariant of every handling pass
-  (`Kopf.C02.uniform_preserved`) and holds of an object without records.
+  The state of `Kopf.C03.loopStep` (Model/C03_Loop.lean, where the whole statement vocabulary lives) is
+  what one object carries (`P` progress records, `base` last-handled essence, deletion mark, own
+  finalizer), its current essence `ess`, the operator's two memory flags, the clock and whether a watch
+  event is pending. "Once changes stop" = nobody but the framework writes; "handlers stop failing" =
+  `AllFinal` (every invocation from now on yields a final outcome). The theorems quantify over ALL such
+  states, and `restart_safe` shows that EVERY history of turns (with any handler outcomes), external
+  edits, deletion requests, restarts and kills from a fresh object leads to one of them.
+  GUARD of every theorem about `loopStep env`: the environment `env` (selection, prematch, finalizer
+  requirement, handler behaviour) is constant during the silent tail, i.e. filters do not read what
+  the framework itself writes — see `Env`, `FiltersStable` and `terminates_stable`.
 -/
 import Kopf.Lemmas.C03_Final
 namespace Kopf.C03
@@ -16,12 +18,13 @@ open Kopf Kopf.C02
 
 variable {E : Type} [DecidableEq E]
 
-/-- TERMINATION. Once every invocation yields a final outcome, the closed loop reaches a state with no
-    pending event within `bound env s` turns — an explicit function of the state:
-    2·(unfinished selected handlers) + (1 if none is due) + (1 if superseded records remain) + 1
-    + keepalive rounds of delays beyond the cap. No bound on handlers, delays or history. -/
+/-- TERMINATION, for every cause including deletion. Once every invocation yields a final outcome, the
+    closed loop reaches a state with no pending event within `bound env s` turns — an explicit function
+    of the state: (1 for a finalizer adjustment) + 2·(unfinished selected handlers) + (1 if none is
+    due) + (1 if superseded records remain) + 1 + keepalive rounds of delays beyond the cap.
+    No bound on handlers, delays or history. -/
 theorem terminates (env : Env) (wf : WF env) (hfin : AllFinal env) :
-    ∀ (s : State E), UniformOn env.owned s.P →
+    ∀ (s : State E), Uniform env s →
       ∃ m, m ≤ bound env s ∧ (iter env m s).pending = false := by
   have main : ∀ (n : Nat) (s : State E), bound env s ≤ n → UniformOn env.owned s.P →
       ∃ m, m ≤ bound env s ∧ (iter env m s).pending = false := by
@@ -43,155 +46,387 @@ theorem terminates (env : Env) (wf : WF env) (hfin : AllFinal env) :
   intro s hu
   exact main (bound env s) s (Nat.le_refl _) hu
 
-/-- FINAL STATE. Whenever the loop has consumed its pending event(s) and nothing is pending any more,
-    the recorded last-handled state IS the object's essence, nothing initial is outstanding, and the
-    framework has stopped writing: even a further (re-)delivered event is processed with no PATCH,
-    no change of records or last-handled state, and leaves nothing pending. -/
+/-- FINAL STATE of an object that is not being deleted (and that the framework is not blind to).
+    Whenever the loop has consumed its pending event(s) and nothing is pending any more: the recorded
+    last-handled state IS the object's essence, nothing initial is outstanding, NO progress record of
+    any owned handler remains, and the framework has stopped writing — even a further (re-)delivered
+    event is processed with no PATCH, no change of records or last-handled state, and leaves nothing
+    pending. (No hypothesis on the handlers: a safety property of every quiescent state.) -/
 theorem final_state (env : Env) (hpm : env.prematch = true) (m : Nat) :
-    ∀ (s : State E), s.pending = true → (iter env m s).pending = false →
+    ∀ (s : State E), s.pending = true → s.gone = false → s.marked = false →
+      (iter env m s).pending = false →
       (iter env m s).base = some s.ess ∧
       ((iter env m s).noticed = true → (iter env m s).fullyHandled = true) ∧
+      (∀ i ∈ env.owned, (iter env m s).P i = none) ∧
       (loopStep env { iter env m s with pending := true }).writes = (iter env m s).writes ∧
       (loopStep env { iter env m s with pending := true }).pending = false ∧
       (loopStep env { iter env m s with pending := true }).base = (iter env m s).base ∧
       (∀ i, (loopStep env { iter env m s with pending := true }).P i = (iter env m s).P i) := by
   induction m with
-  | zero => intro s hp hq; simp only [iter] at hq; rw [hp] at hq; cases hq
+  | zero => intro s hp _ _ hq; simp only [iter] at hq; rw [hp] at hq; cases hq
   | succ m ih =>
-    intro s hp hq
+    intro s hp hg hmk hq
     simp only [iter] at hq ⊢
     cases hp' : (loopStep env s).pending
     · -- quiescence is reached by this very turn
       rw [iter_quiescent env m _ hp']
-      obtain ⟨hb, hi⟩ := quiescent_after_step env s hp hpm hp'
+      obtain ⟨hb, hi, hn, hg2, hm2, ha2⟩ := quiescent_after_step env s hp hg hpm hmk hp'
       have hb' : (loopStep env s).base = some (loopStep env s).ess := by rw [hb, loopStep_ess]
-      obtain ⟨h1, h2, h3, h4⟩ := settled_event_no_write env (loopStep env s) hb' hi
-      refine ⟨hb, ?_, h1, h2, h3, h4⟩
-      intro hn
-      rw [hn] at hi
+      obtain ⟨h1, h2, h3, h4⟩ := settled_event_no_write env (loopStep env s) hb' hi hn hg2 hm2 ha2
+      refine ⟨hb, ?_, hn, h1, h2, h3, h4⟩
+      intro hnt
+      rw [hnt] at hi
       simpa using hi
-    · -- an event is still pending: continue from the next state (same essence)
-      have h := ih (loopStep env s) hp' hq
+    · -- an event is still pending: continue from the next state (same essence, still not deleted)
+      have hg2 : (loopStep env s).gone = false := by
+        rcases turn_cases env s hp hg with ⟨_, _, _, _, h⟩ | ⟨_, _, h⟩ | ⟨_, _, h⟩ | ⟨_, _, h1, _⟩ | ⟨_, _, _, _, h⟩
+        · rw [h]; exact hg
+        · rw [h]; simp [remState, hmk]
+        · rw [h]; exact hg
+        · rw [hmk] at h1; cases h1
+        · rw [h]
+          rcases handleTurn_cases env s with ⟨_, h'⟩ | ⟨d, _, _, h'⟩ | ⟨_, _, h'⟩ <;> rw [h'] <;> exact hg
+      have hm2 : (loopStep env s).marked = false := by rw [loopStep_marked]; exact hmk
+      have h := ih (loopStep env s) hp' hg2 hm2 hq
       rw [loopStep_ess] at h
       exact h
 
-/-- CONVERGENCE = termination + final state: from any state with a pending event, once handlers stop
-    failing, within `bound env s` turns nothing is pending, the last-handled state is the essence, and a
-    further event would cause no write. -/
+/-- FINAL STATE of an object that is being deleted and held by the framework's finalizer: whenever
+    nothing is pending any more, the own finalizer has been removed — the object is gone, unless
+    somebody else's finalizer still holds it ("gone or released"). -/
+theorem final_state_deleted (env : Env) (m : Nat) :
+    ∀ (s : State E), s.pending = true → s.gone = false → s.marked = true → s.blocked = true →
+      (iter env m s).pending = false →
+      (iter env m s).blocked = false ∧ (iter env m s).gone = !env.foreignFins := by
+  induction m with
+  | zero => intro s hp _ _ _ hq; simp only [iter] at hq; rw [hp] at hq; cases hq
+  | succ m ih =>
+    intro s hp hg hmk hbl hq
+    simp only [iter] at hq ⊢
+    rcases marked_step env s hp hg hmk hbl with ⟨hp', hg', hm', hb'⟩ | ⟨hb', hg'⟩
+    · exact ih (loopStep env s) hp' hg' hm' hb' hq
+    · -- released by this turn; nothing can be pending on a gone object, and a surviving one is FREE
+      cases hp' : (loopStep env s).pending
+      · rw [iter_quiescent env m _ hp']; exact ⟨hb', hg'⟩
+      · -- still pending (a foreign finalizer holds it): the remaining turns do not touch the finalizer
+        have key : ∀ (k : Nat) (t : State E), t.blocked = false → t.marked = true →
+            (iter env k t).blocked = false ∧ (iter env k t).gone = t.gone := by
+          intro k
+          induction k with
+          | zero => intro t hb _; exact ⟨hb, rfl⟩
+          | succ k ihk =>
+            intro t hb hmt
+            simp only [iter]
+            have hstep : (loopStep env t).blocked = false ∧ (loopStep env t).gone = t.gone ∧
+                (loopStep env t).marked = true := by
+              refine ⟨?_, ?_, by rw [loopStep_marked]; exact hmt⟩
+              · rcases loopStep_form env t with h | h | h | ⟨g, h⟩ | h | ⟨_, _, _, h⟩
+                · rw [h]; exact hb
+                · rw [h]; exact hb
+                · -- the finalizer is never added to a marked object
+                  exfalso
+                  by_cases hpt : t.pending = true
+                  · by_cases hgt : t.gone = true
+                    · have : loopStep env t = { t with pending := false } := by unfold loopStep; simp [hpt, hgt]
+                      rw [this] at h
+                      have := congrArg State.pending h
+                      simp [addState] at this
+                    · rcases turn_cases env t hpt (by simpa using hgt) with ⟨_, h1, _⟩ | ⟨_, h1, _⟩ | ⟨_, _, h2⟩ | ⟨_, _, _, h1, _⟩ | ⟨_, _, _, _, h2⟩
+                      · rw [hmt] at h1; cases h1
+                      · rw [hb] at h1; cases h1
+                      · rw [h2] at h; have := congrArg State.pending h; simp [addState] at this
+                      · rw [hb] at h1; cases h1
+                      · rw [h2] at h
+                        have h3 : (handleTurn env t).blocked = t.blocked := by
+                          rcases handleTurn_cases env t with ⟨_, h'⟩ | ⟨d, _, _, h'⟩ | ⟨_, _, h'⟩ <;> rw [h'] <;> rfl
+                        have := congrArg State.blocked h
+                        rw [h3, hb] at this
+                        simp [addState] at this
+                  · rw [loopStep_quiescent env t (by simpa using hpt)] at h
+                    have := congrArg State.blocked h
+                    rw [hb] at this; simp [addState] at this
+                · rw [h]; rfl
+                · rw [h]; rfl
+                · rw [h]; exact hb
+              · by_cases hpt : t.pending = true
+                · by_cases hgt : t.gone = true
+                  · rw [gone_stays env t hgt, hgt]
+                  · have hgt' : t.gone = false := by simpa using hgt
+                    rcases turn_cases env t hpt hgt' with ⟨_, h1, _⟩ | ⟨_, h1, _⟩ | ⟨_, _, h2⟩ | ⟨_, _, _, h1, _⟩ | ⟨_, _, _, _, h2⟩
+                    · rw [hmt] at h1; cases h1
+                    · rw [hb] at h1; cases h1
+                    · rw [h2]
+                    · rw [hb] at h1; cases h1
+                    · rw [h2]
+                      rcases handleTurn_cases env t with ⟨_, h'⟩ | ⟨d, _, _, h'⟩ | ⟨_, _, h'⟩ <;> rw [h'] <;> rfl
+                · rw [loopStep_quiescent env t (by simpa using hpt)]
+            obtain ⟨h1, h2⟩ := ihk (loopStep env t) hstep.1 hstep.2.2
+            exact ⟨h1, by rw [h2, hstep.2.1]⟩
+        have hm' : (loopStep env s).marked = true := by rw [loopStep_marked]; exact hmk
+        obtain ⟨h1, h2⟩ := key m (loopStep env s) hb' hm'
+        exact ⟨h1, by rw [h2, hg']⟩
+
+/-- CONVERGENCE = termination + final state, for an object that is not being deleted. -/
 theorem converges (env : Env) (wf : WF env) (hfin : AllFinal env) (hpm : env.prematch = true)
-    (s : State E) (hu : UniformOn env.owned s.P) (hp : s.pending = true) :
+    (s : State E) (hu : Uniform env s) (hp : s.pending = true) (hg : s.gone = false) (hmk : s.marked = false) :
     ∃ m, m ≤ bound env s ∧ (iter env m s).pending = false ∧ (iter env m s).base = some s.ess ∧
+      (∀ i ∈ env.owned, (iter env m s).P i = none) ∧
       (loopStep env { iter env m s with pending := true }).writes = (iter env m s).writes ∧
       (loopStep env { iter env m s with pending := true }).pending = false := by
   obtain ⟨m, hm, hq⟩ := terminates env wf hfin s hu
-  obtain ⟨h1, _, h3, h4, _⟩ := final_state env hpm m s hp hq
-  exact ⟨m, hm, hq, h1, h3, h4⟩
+  obtain ⟨h1, _, h2, h3, h4, _⟩ := final_state env hpm m s hp hg hmk hq
+  exact ⟨m, hm, hq, h1, h2, h3, h4⟩
 
-/-- Once quiescent, always quiescent: no turn changes anything (in particular `writes`). -/
-theorem quiescent_stays (env : Env) (n : Nat) (t : State E) (h : t.pending = false) :
-    iter env n t = t :=
-  iter_quiescent env n t h
-
-
-/-- FULL STATEMENT (property): at quiescence no progress records remain. Still FALSE of the code in two
-    situations (`reverted_change_witness`, `blind_witness` below; known findings C03-F3, C03-F2): the
-    cause is the no-op (the outstanding change was reverted to the last-handled state) or the framework
-    is blind to the object (`prematch = false`) while records are left over. PROVED HERE under the exact
-    guard `Purging`: the cause has a handler reason — every pass that closes such a cycle purges all owned
-    records, also the `skip` pass without selected handlers (since the repair of C03-F1) — or the object
-    carried no record to begin with. -/
-theorem no_records_partial (env : Env) (hpm : env.prematch = true) (m : Nat) :
-    ∀ (s : State E), s.pending = true → Purging env s → (iter env m s).pending = false →
-      ∀ i ∈ env.owned, (iter env m s).P i = none := by
-  induction m with
-  | zero => intro s hp _ hq; simp only [iter] at hq; rw [hp] at hq; cases hq
-  | succ m ih =>
-    intro s hp hg hq
-    simp only [iter] at hq ⊢
-    rcases purging_step env s hp hpm hg with ⟨hp', hg'⟩ | ⟨hp', hn⟩
-    · exact ih (loopStep env s) hp' hg' hq
-    · rw [iter_quiescent env m _ hp']; exact hn
+/-- CONVERGENCE of a deletion: the delete handlers stop failing ⇒ within `bound env s` turns the own
+    finalizer is released and the object is gone (or left to the foreign finalizers). This is the
+    "is ever released" half that a one-cycle statement about the finalizer cannot give. -/
+theorem deletion_converges (env : Env) (wf : WF env) (hfin : AllFinal env)
+    (s : State E) (hu : Uniform env s) (hp : s.pending = true) (hg : s.gone = false)
+    (hmk : s.marked = true) (hbl : s.blocked = true) :
+    ∃ m, m ≤ bound env s ∧ (iter env m s).pending = false ∧
+      (iter env m s).blocked = false ∧ (iter env m s).gone = !env.foreignFins := by
+  obtain ⟨m, hm, hq⟩ := terminates env wf hfin s hu
+  obtain ⟨h1, h2⟩ := final_state_deleted env m s hp hg hmk hbl hq
+  exact ⟨m, hm, hq, h1, h2⟩
 
 /-- The cycle is closed — the last-handled state becomes the essence — exactly by a pass after which
     every handler selected for the outstanding change has a final outcome on record; a turn of the loop
     changes the last-handled state in no other way. -/
 theorem all_selected_completed (env : Env) (wf : WF env) (s : State E) (hp : s.pending = true)
-    (hpm : env.prematch = true) (hh : isHandler s = true) (hne : (env.sel (causeOf s)).isEmpty = false) :
+    (hg : s.gone = false) (hh : isHandler s = true) (hne : (env.sel (causeOf s)).isEmpty = false) :
     ((pass env s).closed = true ↔
       ∀ i ∈ env.sel (causeOf s), ∃ h, postState (cfgOf env s) s.P s.now s.now env.exec i = some h ∧
         h.r.finished = true) ∧
-    (loopStep env s).base = (if (pass env s).closed then some s.ess else s.base) := by
+    ((loopStep env s).base = (if (pass env s).closed then some s.ess else s.base) ∨
+     (loopStep env s).base = s.base) := by
   constructor
   · exact closed_iff_all_finished (cfgOf env s) s.P s.now s.now env.exec (fun i hi => wf.sub _ i hi) hh hne
-  · rcases loopStep_cases env s hp hpm with ⟨_, h⟩ | ⟨d, _, _, h⟩ | ⟨_, _, h⟩ <;> rw [h] <;> rfl
+  · rcases turn_cases env s hp hg with ⟨_, _, _, _, h⟩ | ⟨_, _, h⟩ | ⟨_, _, h⟩ | ⟨_, _, _, _, _, h⟩ | ⟨_, _, _, _, h⟩
+    · right; rw [h]; rfl
+    · right; rw [h]; rfl
+    · right; rw [h]
+    · left; rw [h]; rfl
+    · left; rw [h]
+      rcases handleTurn_cases env s with ⟨_, h'⟩ | ⟨d, _, _, h'⟩ | ⟨_, _, h'⟩ <;> rw [h'] <;> rfl
+
+/-- the pass of turn `k` takes handler `i` from unfinished to a final outcome on record -/
+def CompletedIn (env : Env) (s : State E) (m k : Nat) (i : Id) : Prop :=
+  unfin (iter env k s).P i = true ∧
+  ((k < m ∧ ∃ r, (iter env (k + 1) s).P i = some r ∧ r.finished = true) ∨
+   (k = m ∧ ∃ h, postState (cfgOf env (iter env k s)) (iter env k s).P (iter env k s).now (iter env k s).now
+                   env.exec i = some h ∧ h.r.finished = true))
+
+/-- FULL STATEMENT (property): every handler selected for the outstanding change has completed against
+    the object's FINAL essential state, i.e. in one of the passes of the silent tail (turns `0..m`, the
+    `m`-th being the closing one; every one of them is a pass on `s.ess`):
+      `∀ i ∈ env.sel (causeOf s), ∃ k ≤ m, CompletedIn env s m k i`.
+    That is FALSE of the code (`absorbed_change_witness`: known finding C03-F4). PROVED HERE under the
+    exact guard: the handler is not yet recorded as finished when the last change arrives. -/
+theorem completed_against_final_partial (env : Env) (wf : WF env) (hpm : env.prematch = true) (m : Nat) :
+    ∀ (s : State E), s.pending = true → s.gone = false → adjusting env s = false → isHandler s = true →
+      (env.sel (causeOf s)).isEmpty = false →
+      (∀ k < m, (pass env (iter env k s)).closed = false) → (pass env (iter env m s)).closed = true →
+      ∀ i ∈ env.sel (causeOf s), unfin s.P i = true → ∃ k, k ≤ m ∧ CompletedIn env s m k i := by
+  induction m with
+  | zero =>
+    intro s hp hg _ hh hne _ hc i hi hu
+    refine ⟨0, Nat.le_refl _, hu, Or.inr ⟨rfl, ?_⟩⟩
+    exact (all_selected_completed env wf s hp hg hh hne).1.1 hc i hi
+  | succ m ih =>
+    intro s hp hg ha hh hne hopen hc i hi hu
+    have h0 : (pass env s).closed = false := hopen 0 (Nat.succ_pos _)
+    obtain ⟨now', w, h⟩ := open_next env s hp hg ha hpm hh h0
+    have hcz : causeOf (loopStep env s) = causeOf s := by
+      rw [h]; exact causeOf_congr s _ (by simp [nextState, h0]) rfl rfl (by simp [nextState, h0]) rfl rfl
+    cases hu' : unfin (loopStep env s).P i
+    · -- finished by this very pass
+      refine ⟨0, Nat.zero_le _, hu, Or.inl ⟨Nat.succ_pos _, ?_⟩⟩
+      simp only [iter]
+      unfold unfin at hu'
+      cases hP : (loopStep env s).P i with
+      | none => simp [hP] at hu'
+      | some r => exact ⟨r, rfl, by simpa [hP] using hu'⟩
+    · have hp' : (loopStep env s).pending = true := by rw [h]; rfl
+      have hg' : (loopStep env s).gone = false := by rw [h]; exact hg
+      have ha' : adjusting env (loopStep env s) = false := by
+        rw [h, adjusting_eq]
+        show ((env.prematch && env.changeReq && !s.blocked && !s.marked) ||
+              (!(env.prematch && env.changeReq) && s.blocked)) = false
+        rw [← adjusting_eq]; exact ha
+      have hh' : isHandler (loopStep env s) = true := by unfold isHandler; rw [hcz]; exact hh
+      obtain ⟨k, hk, hcomp⟩ := ih (loopStep env s) hp' hg' ha' hh' (by rw [hcz]; exact hne)
+        (fun k hk => hopen (k + 1) (Nat.succ_lt_succ hk)) hc i (by rw [hcz]; exact hi) hu'
+      refine ⟨k + 1, Nat.succ_le_succ hk, ?_⟩
+      obtain ⟨h1, h2⟩ := hcomp
+      refine ⟨h1, ?_⟩
+      rcases h2 with ⟨hlt, hr⟩ | ⟨heq, hr⟩
+      · exact Or.inl ⟨Nat.succ_lt_succ hlt, hr⟩
+      · exact Or.inr ⟨by omega, hr⟩
 
 /-- After the last change, a handler that reached a final outcome in one turn of the loop is not
     invoked in any later turn of the same handling cycle (C02's once-per-cycle, along the closed loop). -/
 theorem invoked_once_after_last_change (env : Env) (wf : WF env) (hpm : env.prematch = true)
-    (s : State E) (hp : s.pending = true) (hh : isHandler s = true)
-    (hne : NoExtras (cfgOf env s) s.P)
+    (s : State E) (hp : s.pending = true) (hg : s.gone = false) (ha : adjusting env s = false)
+    (hh : isHandler s = true) (hne : NoExtras (cfgOf env s) s.P)
     (i : Id) (n : Nat) (hinv : (i, n) ∈ (pass env s).invoked) (hfin : (env.exec i n).final = true)
     (hopen : (pass env s).closed = false) (k : Nat) :
     ∀ l ∈ invsOf env k (loopStep env s), ∀ m, (i, m) ∉ l := by
-  obtain ⟨now', w, h⟩ := open_next env s hp hpm hh hopen
+  obtain ⟨now', w, h⟩ := open_next env s hp hg ha hpm hh hopen
   have hcz : causeOf (nextState env s now' true w) = causeOf s :=
-    causeOf_congr s _ (by simp [nextState, hopen]) rfl rfl (by simp [nextState, hopen])
+    causeOf_congr s _ (by simp [nextState, hopen]) rfl rfl (by simp [nextState, hopen]) rfl rfl
   have hcfg : cfgOf env (loopStep env s) = cfgOf env s := by rw [h]; unfold cfgOf; rw [hcz]
   have hh' : isHandler (loopStep env s) = true := by rw [h]; unfold isHandler; rw [hcz]; exact hh
   have hp' : (loopStep env s).pending = true := by rw [h]; rfl
+  have hg' : (loopStep env s).gone = false := by rw [h]; exact hg
+  have ha' : adjusting env (loopStep env s) = false := by
+    rw [h, adjusting_eq]
+    show ((env.prematch && env.changeReq && !s.blocked && !s.marked) ||
+          (!(env.prematch && env.changeReq) && s.blocked)) = false
+    rw [← adjusting_eq]; exact ha
   have hP : (loopStep env s).P = (cycle (cfgOf env s) s.P s.now s.now env.exec).P' := by rw [h]; rfl
-  rw [invs_eq env hpm k (loopStep env s) hp' hh', hcfg, hP]
+  rw [invs_eq env hpm k (loopStep env s) hp' hg' ha' hh', hcfg, hP]
   exact once_per_cycle (cfgOf env s) (fun i hi => wf.sub _ i hi) s.P hne ⟨s.now, s.now, env.exec⟩
-    (stepsOf env k (loopStep env s)) i n hinv hfin hopen
+    (toSteps (stepsOf env k (loopStep env s))) i n hinv hfin hopen
 
-/-- RESTART SAFETY. A new operator process (graceful restart or kill) starts from what the object
-    carries — records and last-handled state — and nothing else: wherever the old process was stopped,
-    before its in-flight write reached the server (`restart s t`) or after the server applied it but
-    before the response arrived (`restart (loopStep env s) t`), the hypotheses of `terminates` hold
-    again and the loop converges from there; the restart itself changes nothing on the object. -/
-theorem restart_safe (env : Env) (wf : WF env) (hfin : AllFinal env) (s : State E) (t : Tick)
-    (hu : UniformOn env.owned s.P) :
-    ((restart s t).P = s.P ∧ (restart s t).base = s.base ∧ (restart s t).ess = s.ess) ∧
-    (∃ m, m ≤ bound env (restart s t) ∧ (iter env m (restart s t)).pending = false) ∧
-    (∃ m, m ≤ bound env (restart (loopStep env s) t) ∧
-      (iter env m (restart (loopStep env s) t)).pending = false) :=
-  ⟨⟨rfl, rfl, rfl⟩, terminates env wf hfin (restart s t) hu,
-   terminates env wf hfin (restart (loopStep env s) t) (loopStep_uniform env wf s hu)⟩
+/-- RESTART SAFETY, over whole histories. Take a freshly created object and ANY finite history of:
+    turns of the operator with ARBITRARY handler outcomes (failures included), external edits, deletion
+    requests, operator restarts, and kills — before the in-flight write reached the server
+    (`lostWrite`) or after the server applied it (`turn` then `restart`). The state it leads to meets the
+    hypothesis of `terminates`: once handlers stop failing, the loop converges from there, within the
+    bound of that state. (Induction over the history; restarts keep what the object carries.) -/
+theorem restart_safe (env : Env) (wf : WF env) (hfin : AllFinal env) (acts : List (Act E)) (e : E) (t : Tick) :
+    Uniform env (runActs env (created e t) acts) ∧
+    ∃ m, m ≤ bound env (runActs env (created e t) acts) ∧
+      (iter env m (runActs env (created e t) acts)).pending = false := by
+  have hu0 : UniformOn env.owned (created e t).P := ⟨"", fun i _ r h => by simp [created] at h⟩
+  have hu := runActs_uniform env wf acts (created e t) hu0
+  exact ⟨hu, terminates env wf hfin _ hu⟩
 
-/-- ACCUMULATED CHANGE. However many edits were made while no operator ran, the first cause the new
-    process computes depends only on the stored last-handled state and the FINAL essence: creation if
-    nothing was ever handled, ONE update (last-handled → final) if they differ, resuming if they agree. -/
-theorem accumulated_change (s : State E) (edits : List E) (t : Tick) :
+/-- ACCUMULATED CHANGE. However many edits were made while no operator ran, (a) the first cause the new
+    process computes depends only on the stored last-handled state and the FINAL essence — creation if
+    nothing was ever handled, ONE update (last-handled → final) if they differ, resuming if they agree —
+    and (b) they are handled by at most ONE handling cycle: along any number of turns the last-handled
+    state is written by at most one closing pass. -/
+theorem accumulated_change (env : Env) (s : State E) (edits : List E) (t : Tick) (hm : s.marked = false) :
     let fin := (edits.getLast?).getD s.ess
     causeOf (restart (applyEdits s edits) t) = causeOf (restart { s with ess := fin } t) ∧
     (s.base = none → (causeOf (restart (applyEdits s edits) t)).reason = .create) ∧
     (∀ b, s.base = some b → b ≠ fin → (causeOf (restart (applyEdits s edits) t)).reason = .update) ∧
-    (s.base = some fin → (causeOf (restart (applyEdits s edits) t)).reason = .resume) := by
+    (s.base = some fin → (causeOf (restart (applyEdits s edits) t)).reason = .resume) ∧
+    (∀ n, closings env n (restart (applyEdits s edits) t) ≤ 1) := by
   intro fin
-  obtain ⟨h1, _, h3⟩ := applyEdits_fields edits s
+  obtain ⟨h1, _, h3, h4, _, h6⟩ := applyEdits_fields edits s
   have hc : causeOf (restart (applyEdits s edits) t) = causeOf (restart { s with ess := fin } t) := by
     unfold causeOf restart
-    simp only [h1, h3]
+    simp only [h1, h3, h4, h6]
     rfl
-  refine ⟨hc, ?_, ?_, ?_⟩
+  have hone : ∀ (n : Nat) (u : State E), closings env n u ≤ 1 := by
+    intro n
+    induction n with
+    | zero => intro u; exact Nat.zero_le _
+    | succ n ih =>
+      intro u
+      simp only [closings]
+      by_cases hi : (u.pending && !u.gone && (decisionOf env u).handlersRun && (pass env u).closed) = true
+      · simp only [hi, if_true]
+        simp only [Bool.and_eq_true, Bool.not_eq_true'] at hi
+        obtain ⟨⟨⟨hp, hg⟩, hrun⟩, hcl⟩ := hi
+        have := closings_zero env n (loopStep env u) (after_closing env u hp hg hrun hcl)
+        omega
+      · simp only [hi, Bool.false_eq_true, if_false, Nat.zero_add]
+        exact ih _
+  refine ⟨hc, ?_, ?_, ?_, fun n => hone n _⟩
   · intro hb
-    rw [hc]; simp [causeOf, restart, hb, C05.detect, C05.detectReason]
+    rw [hc]; simp [causeOf, restart, hb, hm, C05.detect, C05.detectReason]
   · intro b hb hne
     have : some b ≠ some fin := fun h => hne (Option.some.inj h)
-    rw [hc]; simp [causeOf, restart, hb, this, C05.detect, C05.detectReason]
+    rw [hc]; simp [causeOf, restart, hb, hm, this, C05.detect, C05.detectReason]
   · intro hb
-    rw [hc]; simp [causeOf, restart, hb, C05.detect, C05.detectReason]
+    rw [hc]; simp [causeOf, restart, hb, hm, C05.detect, C05.detectReason]
 
-/-- An object no changing handler's filters accept: the event is consumed, nothing is written. -/
-theorem blind_quiescent (env : Env) (hpm : env.prematch = false) (s : State E) (hp : s.pending = true) :
+/-- An object no changing handler's filters accept (and whose finalizer needs no adjustment): the event
+    is consumed, nothing is written — neither records nor last-handled state are touched. -/
+theorem blind_quiescent (env : Env) (hpm : env.prematch = false) (s : State E) (hp : s.pending = true)
+    (hg : s.gone = false) (ha : adjusting env s = false) :
     (loopStep env s).pending = false ∧ (loopStep env s).writes = s.writes ∧
     (loopStep env s).base = s.base ∧ (loopStep env s).P = s.P := by
-  have : loopStep env s = { s with pending := false } := by unfold loopStep; simp [hp, hpm]
-  rw [this]
-  exact ⟨rfl, rfl, rfl, rfl⟩
+  rcases turn_cases env s hp hg with ⟨h1, _⟩ | ⟨h1, _⟩ | ⟨_, _, h⟩ | ⟨_, h1, _⟩ | ⟨_, h1, _⟩
+  · unfold adjusting at ha; simp [h1] at ha
+  · unfold adjusting at ha; simp [h1] at ha
+  · rw [h]; exact ⟨rfl, rfl, rfl, rfl⟩
+  · rw [hpm] at h1; cases h1
+  · rw [hpm] at h1; cases h1
 
+/-- The `skip` pass (a handler reason, but no handler selected any more — e.g. the retrying handler's
+    label filter stopped matching): the cycle is closed, the last-handled state becomes the essence and
+    EVERY owned progress record is purged. (Formerly false of the code: C03-F1, repaired by 2ae938f.) -/
+theorem skip_path_purges (env : Env) (s : State E) (hp : s.pending = true) (hg : s.gone = false)
+    (ha : adjusting env s = false) (hpm : env.prematch = true) (hmk : s.marked = false)
+    (hh : isHandler s = true) (he : (env.sel (causeOf s)).isEmpty = true) :
+    (loopStep env s).base = some s.ess ∧ (loopStep env s).fullyHandled = true ∧
+    ∀ i ∈ env.owned, (loopStep env s).P i = none := by
+  obtain ⟨hc, hn⟩ := closed_purges_skip (cfgOf env s) s.P s.now s.now env.exec hh he
+  have hc' : (pass env s).closed = true := hc
+  rcases turn_cases env s hp hg with ⟨h1, _⟩ | ⟨h1, _⟩ | ⟨_, h1, _⟩ | ⟨_, _, h1, _⟩ | ⟨_, _, _, _, h⟩
+  · unfold adjusting at ha; simp [h1] at ha
+  · unfold adjusting at ha; simp [h1] at ha
+  · rw [hpm] at h1; cases h1
+  · rw [hmk] at h1; cases h1
+  · rw [h]
+    rcases handleTurn_cases env s with ⟨_, h'⟩ | ⟨d, _, _, h'⟩ | ⟨_, _, h'⟩ <;> rw [h'] <;>
+      exact ⟨by simp [nextState, hc'], by simp [nextState, hc'], hn⟩
 
-/-! ### concrete instances: the clauses that are false of the code, and non-vacuity -/
+/-! ### filters that read what the framework writes: the guard, made explicit -/
+
+theorem iter_succ' (env : Env) (n : Nat) : ∀ s : State E, iter env (n + 1) s = loopStep env (iter env n s) := by
+  induction n with
+  | zero => intro s; rfl
+  | succ n ih => intro s; simp only [iter] at ih ⊢; exact ih _
+
+theorem iterG_succ' (envOf : State E → Env) (n : Nat) :
+    ∀ s : State E, iterG envOf (n + 1) s = loopStepG envOf (iterG envOf n s) := by
+  induction n with
+  | zero => intro s; rfl
+  | succ n ih => intro s; simp only [iterG] at ih ⊢; exact ih _
+
+/-- Under the guard `FiltersStable` (the environment computed from the whole state does not move along
+    the silent tail) the loop of such an operator IS the loop of the constant environment, and
+    therefore terminates within the same bound. Without the guard nothing is claimed. -/
+theorem terminates_stable (envOf : State E → Env) (s : State E) (hst : FiltersStable envOf s)
+    (wf : WF (envOf s)) (hfin : AllFinal (envOf s)) (hu : Uniform (envOf s) s) :
+    (∀ n, iterG envOf n s = iter (envOf s) n s) ∧
+    ∃ m, m ≤ bound (envOf s) s ∧ (iterG envOf m s).pending = false := by
+  have heq : ∀ n, iterG envOf n s = iter (envOf s) n s := by
+    intro n
+    induction n with
+    | zero => rfl
+    | succ n ih =>
+      rw [iterG_succ', iter_succ', ← ih]
+      unfold loopStepG
+      rw [hst n]
+  obtain ⟨m, hm, hq⟩ := terminates (envOf s) wf hfin s hu
+  exact ⟨heq, m, hm, by rw [heq m]; exact hq⟩
+
+/-- The guard holds whenever the environment is computed from the essence and the deletion mark only
+    (filters that read labels, annotations, spec — not the framework's own annotations, finalizer or
+    status). -/
+theorem filtersStable_of_essence (envOf : State E → Env)
+    (h : ∀ s s' : State E, s.ess = s'.ess → s.marked = s'.marked → envOf s = envOf s') (s : State E) :
+    FiltersStable envOf s := by
+  have key : ∀ n, (iterG envOf n s).ess = s.ess ∧ (iterG envOf n s).marked = s.marked := by
+    intro n
+    induction n with
+    | zero => exact ⟨rfl, rfl⟩
+    | succ n ih =>
+      rw [iterG_succ']
+      unfold loopStepG
+      rw [loopStep_ess, loopStep_marked]
+      exact ih
+  intro n
+  exact h _ _ (key n).1 (key n).2
+
+/-! ### concrete instances: the clauses that are false of the code, regressions of repaired findings,
+    and non-vacuity -/
 
 def okOutcome : Outcome := { final := true, delay := none, error := false, subrefs := [] }
 def tempOutcome (d : Tick) : Outcome := { final := false, delay := some d, error := true, subrefs := [] }
@@ -205,10 +440,11 @@ def retryingRec : Rec :=
 def envW (prematch : Bool) : Env :=
   { owned := ["c0", "u0"], subs := [], sel := fun c => if c.reason = .create then ["c0"] else [],
     limits := fun _ => ⟨none, none⟩, lifecycle := .asap, exec := fun _ _ => okOutcome,
-    prematch := prematch, lat := 1, cap := 38400 }
+    prematch := prematch, changeReq := false, foreignFins := false, lat := 1, cap := 38400 }
 
 def stateW (base : Option Nat) (ess : Nat) : State Nat :=
   { P := fun i => if i = "u0" then some retryingRec else none, base := base, ess := ess,
+    marked := false, blocked := false, gone := false,
     noticed := false, fullyHandled := true, now := 256, pending := true, writes := 0 }
 
 theorem envW_wf (b : Bool) : WF (envW b) := by
@@ -219,7 +455,7 @@ theorem envW_wf (b : Bool) : WF (envW b) := by
   · simp at hi; simp [hi]
   · simp at hi
 
-theorem stateW_uniform (b : Bool) (base : Option Nat) (ess : Nat) : UniformOn (envW b).owned (stateW base ess).P := by
+theorem stateW_uniform (b : Bool) (base : Option Nat) (ess : Nat) : Uniform (envW b) (stateW base ess) := by
   refine ⟨"update", ?_⟩
   intro i _ r hP
   simp only [stateW] at hP
@@ -227,24 +463,11 @@ theorem stateW_uniform (b : Bool) (base : Option Nat) (ess : Nat) : UniformOn (e
   · cases hP; rfl
   · cases hP
 
-/-- The `skip` pass (a handler reason, but no handler selected any more — e.g. the retrying handler's
-    label filter stopped matching): the cycle is closed, the last-handled state becomes the essence and
-    EVERY owned progress record is purged, in particular the stale one of the no-longer-selected handler.
-    (Formerly false of the code: finding C03-F1, repaired in /repo by 2ae938f.) -/
-theorem skip_path_purges (env : Env) (s : State E) (hp : s.pending = true) (hpm : env.prematch = true)
-    (hh : isHandler s = true) (he : (env.sel (causeOf s)).isEmpty = true) :
-    (loopStep env s).base = some s.ess ∧ (loopStep env s).fullyHandled = true ∧
-    ∀ i ∈ env.owned, (loopStep env s).P i = none := by
-  obtain ⟨hc, hn⟩ := closed_purges_skip (cfgOf env s) s.P s.now s.now env.exec hh he
-  have hc' : (pass env s).closed = true := hc
-  rcases loopStep_cases env s hp hpm with ⟨_, h⟩ | ⟨d, _, _, h⟩ | ⟨_, _, h⟩ <;> rw [h] <;>
-    exact ⟨by simp [nextState, hc'], by simp [nextState, hc'], hn⟩
-
 /-- The former C03-F1 scenario as a regression instance: `u0` was retrying, a label edit made it stop
     matching and changed the essence; after two turns the loop is quiescent, converged, and `u0`'s record
     is gone; a third turn writes nothing. -/
 theorem stale_record_purged_instance :
-    WF (envW true) ∧ AllFinal (envW true) ∧ UniformOn (envW true).owned (stateW (some 0) 1).P ∧
+    WF (envW true) ∧ AllFinal (envW true) ∧ Uniform (envW true) (stateW (some 0) 1) ∧
     isHandler (stateW (some 0) 1) = true ∧ (envW true).sel (causeOf (stateW (some 0) 1)) = [] ∧
     ((stateW (some 0) 1).P "u0").isSome = true ∧
     (iter (envW true) 2 (stateW (some 0) 1)).pending = false ∧
@@ -254,57 +477,86 @@ theorem stale_record_purged_instance :
   ⟨envW_wf true, fun _ _ => rfl, stateW_uniform true _ _, by decide, by decide, by decide, by decide, by decide,
    by decide, by decide⟩
 
-/-- C03-F3. The same with no outstanding change at all: the change `u0` was retrying for has been
-    reverted to the last-handled state; the cause is the no-op, nothing is written, the record stays. -/
-theorem reverted_change_witness :
-    ∃ (env : Env) (s : State Nat), WF env ∧ AllFinal env ∧ UniformOn env.owned s.P ∧ env.prematch = true ∧
-      s.pending = true ∧ isHandler s = false ∧
-      (iter env 1 s).pending = false ∧ (iter env 1 s).base = some s.ess ∧ (iter env 1 s).writes = s.writes ∧
-      (iter env 1 s).P "u0" = s.P "u0" ∧ (s.P "u0").isSome = true :=
-  ⟨envW true, stateW (some 1) 1, envW_wf true, fun _ _ => rfl, stateW_uniform true _ _, rfl, rfl, by decide,
-   by decide, by decide, by decide, by decide, by decide⟩
+/-- The former C03-F3 scenario as a regression instance (repaired by d1b2dc4): the change `u0` was
+    retrying for has been reverted to the last-handled state; the no-op cause purges the leftover record
+    with one PATCH, the echo finds nothing to do. -/
+theorem reverted_change_purged_instance :
+    isHandler (stateW (some 1) 1) = false ∧ ((stateW (some 1) 1).P "u0").isSome = true ∧
+    (iter (envW true) 1 (stateW (some 1) 1)).pending = true ∧
+    (iter (envW true) 1 (stateW (some 1) 1)).writes = 1 ∧
+    (iter (envW true) 2 (stateW (some 1) 1)).pending = false ∧
+    (iter (envW true) 2 (stateW (some 1) 1)).base = some 1 ∧
+    (iter (envW true) 2 (stateW (some 1) 1)).P "u0" = none ∧
+    bound (envW true) (stateW (some 1) 1) = 2 :=
+  ⟨by decide, by decide, by decide, by decide, by decide, by decide, by decide, by decide⟩
 
-/-- C03-F2. The object stopped matching every handler: the framework is blind to it; neither the stale
-    record nor the outdated last-handled state is ever touched again. -/
+/-- C03-F2 (open). "No progress records remain" and "last-handled = essence" are FALSE for an object that
+    stopped matching every handler: the framework is blind to it; neither the stale record nor the
+    outdated last-handled state is ever touched again. All hypotheses of `terminates` hold. -/
 theorem blind_witness :
-    ∃ (env : Env) (s : State Nat), WF env ∧ AllFinal env ∧ UniformOn env.owned s.P ∧ env.prematch = false ∧
-      s.pending = true ∧
+    ∃ (env : Env) (s : State Nat), WF env ∧ AllFinal env ∧ Uniform env s ∧ env.prematch = false ∧
+      s.pending = true ∧ s.gone = false ∧ s.marked = false ∧ "u0" ∈ env.owned ∧
       (iter env 1 s).pending = false ∧ (iter env 1 s).base ≠ some s.ess ∧ (iter env 1 s).writes = s.writes ∧
       (iter env 1 s).P "u0" = s.P "u0" ∧ (s.P "u0").isSome = true :=
-  ⟨envW false, stateW (some 0) 1, envW_wf false, fun _ _ => rfl, stateW_uniform false _ _, rfl, rfl,
-   by decide, by decide, by decide, by decide, by decide⟩
+  ⟨envW false, stateW (some 0) 1, envW_wf false, fun _ _ => rfl, stateW_uniform false _ _, rfl, rfl, rfl, rfl,
+   by decide, by decide, by decide, by decide, by decide, by decide⟩
 
 /-- two update handlers, all at once; `u2` fails temporarily on its first attempt -/
 def envA : Env :=
   { owned := ["u1", "u2"], subs := [], sel := fun c => if c.reason = .update then ["u1", "u2"] else [],
     limits := fun _ => ⟨none, none⟩, lifecycle := .allAtOnce,
     exec := fun i n => if i = "u2" ∧ n = 0 then tempOutcome 64 else okOutcome,
-    prematch := true, lat := 1, cap := 38400 }
+    prematch := true, changeReq := false, foreignFins := false, lat := 1, cap := 38400 }
 
 def stateA : State Nat :=
-  { P := fun _ => none, base := some 0, ess := 1, noticed := false, fullyHandled := true, now := 0,
-    pending := true, writes := 0 }
+  { P := fun _ => none, base := some 0, ess := 1, marked := false, blocked := false, gone := false,
+    noticed := false, fullyHandled := true, now := 0, pending := true, writes := 0 }
 
-/-- C03-F4. "Every selected handler has completed against the final essential state" is false: `u1`
-    completes on essence 1 while `u2` is still retrying; an external edit moves the essence to 2; the
-    cycle stays open, `u1`'s finished record keeps it from running again, `u2` succeeds on essence 2 and
-    the last-handled state becomes 2 — which `u1` has never seen. -/
+/-- the state of `absorbed_change_witness` when the last change (essence := 2) arrives -/
+def stateA2 : State Nat := { loopStep envA stateA with ess := 2 }
+
+/-- C03-F4 (open): the NEGATION of the full statement above `completed_against_final_partial`. `u1`
+    completes on essence 1 while `u2` is still retrying; an external edit moves the essence to 2
+    (`stateA2`); the cycle stays open, `u1`'s finished record keeps it from running again, `u2` succeeds
+    on essence 2 in the closing pass (turn 1) and the last-handled state becomes 2. `u1` is selected for
+    the outstanding update, but in NO pass of the tail does it complete: it never saw essence 2. -/
 theorem absorbed_change_witness :
     (pass envA stateA).invoked = [("u1", 0), ("u2", 0)] ∧
-    (let s2 : State Nat := { loopStep envA stateA with ess := 2 }
-     s2.pending = true ∧ s2.base = some 0 ∧
-     invsOf envA 4 s2 = [[], [("u2", 1)]] ∧
-     (iter envA 3 s2).pending = false ∧ (iter envA 3 s2).base = some 2 ∧
-     (∀ i ∈ envA.owned, (iter envA 3 s2).P i = none)) := by
-  refine ⟨by decide, by decide, by decide, by decide, by decide, by decide, ?_⟩
-  intro i hi
-  simp only [envA, List.mem_cons, List.mem_nil_iff, or_false] at hi
-  rcases hi with rfl | rfl <;> decide
+    stateA2.pending = true ∧ stateA2.base = some 0 ∧ isHandler stateA2 = true ∧
+    "u1" ∈ envA.sel (causeOf stateA2) ∧
+    (pass envA (iter envA 0 stateA2)).closed = false ∧ (pass envA (iter envA 1 stateA2)).closed = true ∧
+    invsOf envA 4 stateA2 = [[], [("u2", 1)]] ∧
+    (iter envA 3 stateA2).pending = false ∧ (iter envA 3 stateA2).base = some 2 ∧
+    ¬ (∃ k, k ≤ 1 ∧ CompletedIn envA stateA2 1 k "u1") := by
+  refine ⟨by decide, by decide, by decide, by decide, by decide, by decide, by decide, by decide, by decide,
+    by decide, ?_⟩
+  rintro ⟨k, hk, hu, _⟩
+  have : k = 0 ∨ k = 1 := by omega
+  rcases this with rfl | rfl
+  · exact absurd hu (by decide)
+  · exact absurd hu (by decide)
 
--- non-vacuity of `terminates` / `restart_safe`: a state with two unfinished selected handlers, one of
--- them about to sleep, meets the hypotheses; its bound is 2·2 + 0 + 0 + 1 + 0 = 5 and the loop needs 4 turns
--- (invoke both, sleep + touch, invoke the retry and close, echo of the closing PATCH)
-example : WF envA ∧ AllFinal { envA with exec := fun _ _ => okOutcome } ∧ UniformOn envA.owned stateA.P := by
+/-- a mandatory deletion handler `d0` that fails once; the object is marked and holds our finalizer -/
+def envD (foreign : Bool) : Env :=
+  { owned := ["d0"], subs := [], sel := fun c => if c.reason = .delete then ["d0"] else [],
+    limits := fun _ => ⟨none, none⟩, lifecycle := .asap,
+    exec := fun _ n => if n = 0 then tempOutcome 64 else okOutcome,
+    prematch := true, changeReq := true, foreignFins := foreign, lat := 1, cap := 38400 }
+
+def stateD : State Nat :=
+  { P := fun _ => none, base := some 0, ess := 0, marked := true, blocked := true, gone := false,
+    noticed := false, fullyHandled := true, now := 0, pending := true, writes := 0 }
+
+/-- a live object that needs the finalizer first: the adding turn, then the creation -/
+def stateN : State Nat :=
+  { P := fun _ => none, base := none, ess := 0, marked := false, blocked := false, gone := false,
+    noticed := false, fullyHandled := false, now := 0, pending := true, writes := 0 }
+
+-- non-vacuity of `terminates` / `converges` / `completed_against_final_partial` /
+-- `invoked_once_after_last_change` / `all_selected_completed`: a state with two unfinished selected handlers
+-- meets the hypotheses; its bound is 2·2 + 0 + 0 + 1 + 0 = 5 and the loop needs 4 turns (invoke both, sleep +
+-- touch, invoke the retry and close, echo of the closing PATCH); turns 0..1 are open, turn 2 closes
+example : WF envA ∧ AllFinal { envA with exec := fun _ _ => okOutcome } ∧ Uniform envA stateA := by
   refine ⟨⟨?_, by decide, by decide⟩, fun _ _ => rfl, ⟨"update", fun i _ r h => by simp [stateA] at h⟩⟩
   intro c i hi
   simp only [envA] at hi ⊢
@@ -312,19 +564,40 @@ example : WF envA ∧ AllFinal { envA with exec := fun _ _ => okOutcome } ∧ Un
   · exact hi
   · simp at hi
 
-example : bound envA stateA = 5 ∧ (iter envA 3 stateA).pending = true ∧ (iter envA 4 stateA).pending = false := by
-  refine ⟨by decide, by decide, by decide⟩
+example : bound envA stateA = 5 ∧ (iter envA 3 stateA).pending = true ∧ (iter envA 4 stateA).pending = false ∧
+    adjusting envA stateA = false ∧ isHandler stateA = true ∧ (envA.sel (causeOf stateA)).isEmpty = false ∧
+    (pass envA (iter envA 0 stateA)).closed = false ∧ (pass envA (iter envA 1 stateA)).closed = false ∧
+    (pass envA (iter envA 2 stateA)).closed = true ∧ unfin stateA.P "u1" = true := by
+  refine ⟨by decide, by decide, by decide, by decide, by decide, by decide, by decide, by decide, by decide, by decide⟩
 
--- non-vacuity of `no_records_partial` / `all_selected_completed` / `invoked_once_after_last_change`:
--- the guard `Purging` and `NoExtras` hold of that state, the first pass is open and `u1`'s outcome is final;
--- `Purging` also holds of the former C03-F1 state (records present, handler reason, nothing selected)
-example : Purging envA stateA ∧ NoExtras (cfgOf envA stateA) stateA.P ∧ (pass envA stateA).closed = false ∧
-    (envA.exec "u1" 0).final = true ∧ Purging (envW true) (stateW (some 0) 1) :=
-  ⟨Or.inl (by decide), fun i _ r h => by simp [stateA] at h, by decide, by decide, Or.inl (by decide)⟩
+example : NoExtras (cfgOf envA stateA) stateA.P ∧ (pass envA stateA).closed = false ∧
+    (envA.exec "u1" 0).final = true :=
+  ⟨fun i _ r h => by simp [stateA] at h, by decide, by decide⟩
 
--- non-vacuity of `accumulated_change`: three edits during a downtime, one update cause
+-- non-vacuity of `deletion_converges` / `final_state_deleted`: the delete handler fails once, sleeps, is retried,
+-- the closing pass releases the finalizer: the object is gone after 3 turns; with a foreign
+-- finalizer it stays, released, and one more (FREE) turn is consumed
+example : bound (envD false) stateD = 3 ∧ (iter (envD false) 3 stateD).pending = false ∧
+    (iter (envD false) 3 stateD).gone = true ∧ (iter (envD false) 2 stateD).gone = false ∧
+    (iter (envD true) 4 stateD).pending = false ∧ (iter (envD true) 4 stateD).gone = false ∧
+    (iter (envD true) 4 stateD).blocked = false := by
+  refine ⟨by decide, by decide, by decide, by decide, by decide, by decide, by decide⟩
+
+-- the finalizer-adding turn: one extra turn, no handler runs in it
+example : adjusting (envD false) stateN = true ∧ (pass (envD false) stateN).invoked = [] ∧
+    (loopStep (envD false) stateN).blocked = true ∧ (loopStep (envD false) stateN).P "d0" = none ∧
+    (iter (envD false) 3 stateN).pending = false ∧ (iter (envD false) 3 stateN).base = some 0 := by
+  refine ⟨by decide, by decide, by decide, by decide, by decide, by decide⟩
+
+-- non-vacuity of `restart_safe`: a history with a failing turn, an edit, a kill before the write, a kill after
+-- it, a deletion request; and of `accumulated_change`: three edits during a downtime, one update cause
+example : (runActs envA (created 0 0)
+    [.turn (fun _ _ => tempOutcome 8), .edit 5 9, .lostWrite (fun _ _ => okOutcome) 12, .turn (fun _ _ => okOutcome),
+     .restart 20, .edit 6 21, .delete 22]).ess = 6 := by decide
+
 example : (causeOf (restart (applyEdits stateA [5, 6, 7]) 100)).reason = .update ∧
-    causeOf (restart (applyEdits stateA [5, 6, 7]) 100) = causeOf (restart { stateA with ess := 7 } 100) := by
-  refine ⟨by decide, by decide⟩
+    causeOf (restart (applyEdits stateA [5, 6, 7]) 100) = causeOf (restart { stateA with ess := 7 } 100) ∧
+    closings envA 6 (restart (applyEdits stateA [5, 6, 7]) 100) = 1 := by
+  refine ⟨by decide, by decide, by decide⟩
 
 end Kopf.C03
